@@ -14,5 +14,5 @@ run_one() {
 }
 export -f run_one
 { echo "# Seeded changes vs checks ($tier tier, $(date -u +%FT%TZ), repo $(git -C /repo rev-parse --short HEAD))"; echo; echo "| seed | property | check exit | VIOLATION lines | failing clauses |"; echo "|---|---|---|---|---|"; 
-  ls /verif/seeded | xargs -P 3 -I{} bash -c "run_one {} $tier" | sort; } > $out
+  ls /verif/seeded | xargs -P 3 -I{} bash -c "run_one {} $tier" | sort; } > $out.tmp && mv $out.tmp $out
 cat $out
